@@ -238,6 +238,7 @@ class Scheduler:
         self.cur: Task | None = None
         self.deadlock_info = None
         self.line_mode = False
+        self.line_files = None  # None = every registered file; else the set of file names that yield in this run
         self.capture_dump = False
         self.on_root_done = None
         self.abort_dump = None
